@@ -162,6 +162,8 @@ fn prefixes(spec: &CmdSpec) -> Vec<(Vec<&'static str>, Vec<&'static str>)> {
             (vec!["bld"], vec!["build"]),
             (vec!["build", "deep"], vec!["build", "deep"]),
             (vec!["--opt=one", "build", "-r", "deep"], vec!["build", "deep"]),
+            // an option given with an attached empty value is complete: the next word starts afresh
+            (vec!["build", "--target="], vec!["build"]),
             (vec!["hidsub"], vec!["hidsub"]),
             (vec!["hidsub", "-d"], vec!["hidsub"]),
             (vec!["hidsub", "dump"], vec!["hidsub", "dump"]),
